@@ -510,6 +510,8 @@ func runC15(w *World, r *Report) {
 	}
 	mappedZeroChecks(w, r, "C15.static-only-converted")
 
+	shareRule(w, r, "C15.keyed-node-converter-is-the-maps", "a node with an input key takes its mapped fields as a map: forMapInput rebuilds the input-side slots for map[string]any instead of copying the wrapped component's", 4, "C04", "C04.in-out-wiring")
+
 	r.Rule("C15.source-field-readable", "checkAndExtractFromField returns a field value only under CanInterface() == true", 1)
 	{
 		f := w.Fn("compose", "checkAndExtractFromField")
